@@ -31,13 +31,34 @@ class Contract:
         self.native_ghost = ""          # python source defining ghost(env) for the native replay
 
     def named(self, clauses, prefix):
+        """[(name, clause text)]; guided clauses (name, body, {forall: {v: range}, use: [...]}) are rendered as the
+        quantified clause they stand for"""
         out = []
         for k, c in enumerate(clauses):
-            if isinstance(c, tuple):
+            if isinstance(c, tuple) and len(c) == 3:
+                out.append((c[0], guided_text(c)))
+            elif isinstance(c, tuple):
                 out.append(c)
             else:
                 out.append(("%s%d" % (prefix, k), c))
         return out
+
+    def guided(self, name):
+        for c in self.ensures:
+            if isinstance(c, tuple) and len(c) == 3 and c[0] == name:
+                return c
+        return None
+
+
+def guided_text(c):
+    name, body, g = c
+    fa = g.get("forall") or {}
+    if not fa:
+        return body
+    vs = list(fa.keys())
+    if len(vs) == 1:
+        return "forall(%s, %s, %s)" % (vs[0], fa[vs[0]], body)
+    return "forall((%s), (%s), %s)" % (", ".join(vs), ", ".join(fa[v] for v in vs), body)
 
 
 class Registry:
@@ -55,6 +76,9 @@ class Registry:
         return self.contracts.get(qualname)
 
     def loop_spec(self, qualname, ordinal):
+        pc = getattr(self, "proof_contract", None)
+        if pc is not None and pc.qualname.split("#")[0] == qualname:
+            return pc.loops.get(ordinal)
         c = self.contracts.get(qualname)
         if c is None:
             return None
@@ -436,6 +460,7 @@ def verify_function(repo, registry, qualname, max_paths=400, post_hooks=()):
         ex = Exec(repo, registry, trace)
         ex.proof_label = qualname
         registry.under_proof = base_q
+        registry.proof_contract = c
         sfac = S(ex)
         try:
             args = c.setup(sfac)
@@ -476,6 +501,28 @@ def verify_function(repo, registry, qualname, max_paths=400, post_hooks=()):
                 cenv = dict(env)
                 cenv["result"] = outcome[1]
                 for (nm, cl) in c.named(c.ensures, "ensures"):
+                    g = c.guided(nm)
+                    if g is not None:
+                        # guided clause: skolemise the quantified variables, add the requested lemma instances
+                        k0 = len(ex.pc)
+                        genv = dict(cenv)
+                        ex.frames.append(Frame(finfo, genv, finfo.module))
+                        try:
+                            for v, rng in (g[2].get("forall") or {}).items():
+                                sk = fresh(v, z3.IntSort())
+                                genv[v] = sk
+                                r = ClauseExec(ex, dict(genv), old_env=old, module=finfo.module).run(rng)
+                                ex.assume(band(compare("<=", r.lo, sk), compare("<", sk, r.hi)))
+                            ex.frames[-1].env = genv
+                            for (lname, bindings) in g[2].get("use", ()):
+                                use_lemma(ex, lname, bindings, old=old)
+                            f = ClauseExec(ex, dict(genv), old_env=old, module=finfo.module).run(g[1])
+                            f = V.z3bool(f) if is_z3(f) else bool(f)
+                            ex.oblige("post:%s:%s" % (tag, nm), f, "postcondition")
+                        finally:
+                            ex.frames.pop()
+                            del ex.pc[k0:]
+                        continue
                     f = ClauseExec(ex, dict(cenv), old_env=old, module=finfo.module).run(cl)
                     f = V.z3bool(f) if is_z3(f) else bool(f)
                     ex.oblige("post:%s:%s" % (tag, nm), f, "postcondition")
@@ -513,11 +560,12 @@ def verify_function(repo, registry, qualname, max_paths=400, post_hooks=()):
             rep.unsupported.append("break/continue outside loop")
         finally:
             registry.under_proof = None
+            registry.proof_contract = None
         for ob_ in ex.obligations:
             ob_.meta.setdefault("function", qualname)
             ob_.meta.setdefault("contract", {
                 "requires": [list(x) for x in c.named(c.requires, "requires")],
-                "ensures": [list(x) for x in c.named(c.ensures, "ensures")],
+                "ensures": [list(x)[:2] for x in c.named(c.ensures, "ensures")],
                 "raises": {k: v.get("when") for k, v in c.raises.items()},
                 "native_ghost": getattr(c, "native_ghost", "")})
         rep.obligations.extend(ex.obligations)
@@ -536,8 +584,9 @@ def verify_function(repo, registry, qualname, max_paths=400, post_hooks=()):
 # --------------------------------------------------------------------------------------------------
 # property-level lemmas over contract clauses (no code involved: hypotheses are contract clauses)
 
-def clause_lemma(ctx, name, setup, hyps, goals, where="lemma"):
-    """obligations  hyps |- goal_i  with all clauses evaluated over the symbolic environment `setup(S)`"""
+def clause_lemma(ctx, name, setup, hyps, goals, where="lemma", use=()):
+    """obligations  hyps |- goal_i  with all clauses evaluated over the symbolic environment `setup(S)`;
+    `use`: instances (lemma name, bindings) of Lean-proved library lemmas added to the hypotheses"""
     V._counter = __import__("itertools").count(10**6)
     ex = Exec(ctx.repo, ctx.registry)
     sfac = S(ex)
@@ -545,9 +594,21 @@ def clause_lemma(ctx, name, setup, hyps, goals, where="lemma"):
     fr = Frame(None, env, None)
     ex.frames.append(fr)
     hs = []
+    pre_obs = []
     for h in hyps:
         cl = h[1] if isinstance(h, tuple) else h
         hs.append(eval_clause(ex, cl, env=env))
+    ex.pc = [h for h in hs if is_z3(h)]
+    for (lname, bindings) in use:
+        k0 = len(ex.pc)
+        use_lemma(ex, lname, bindings)
+        hs.extend(ex.pc[k0:])
+        ctx.used_lemmas = set(getattr(ctx, "used_lemmas", ())) | {lname}
+    pre_obs = list(ex.obligations)
+    for ob_ in pre_obs:
+        ob_.name = "lemma:%s:%s" % (name, ob_.name)
+        ob_.where = where
+        ob_.meta["leaves"] = sfac.leaves
     out = []
     for g in goals:
         nm, cl = g if isinstance(g, tuple) else ("goal", g)
@@ -556,7 +617,7 @@ def clause_lemma(ctx, name, setup, hyps, goals, where="lemma"):
         ob = symex.Obligation("lemma:%s:%s" % (name, nm), [h for h in hs if is_z3(h)], f, "lemma", where,
                               meta={"leaves": sfac.leaves})
         out.append(ob)
-    return out
+    return pre_obs + out
 
 
 # --------------------------------------------------------------------------------------------------
@@ -582,8 +643,22 @@ def use_lemma(ex, name, bindings, extra=None, entry=None, pre=None, old=None):
     finally:
         ex.frames.pop()
     known = set(h.get_id() for h in ex.pc if is_z3(h))
-    hs = [h for h in hs if not (is_z3(h) and h.get_id() in known)]
-    ex.assume(implies(band(*hs), c))
+    names = [(h[0] if isinstance(h, tuple) else "h%d" % k) for k, h in enumerate(lem["hyps"])]
+    was_probe = ex.probe
+    ex.probe = False
+    try:
+        for nm, h in zip(names, hs):
+            if is_z3(h) and h.get_id() in known:
+                continue
+            if h is True:
+                continue
+            # each hypothesis of the lemma instance is its own obligation at this program point; the conclusion is
+            # then available as a plain fact (keeps the solver queries small)
+            ex.oblige("lemma-hyp:%s:%s" % (name, nm), h if is_z3(h) else z3.BoolVal(bool(h)), "lemma-hypothesis",
+                      getattr(ex, "_cur_line", None))
+    finally:
+        ex.probe = was_probe
+    ex.assume(c)
     if not hasattr(ex, "used_lemmas"):
         ex.used_lemmas = set()
     ex.used_lemmas.add(name)
